@@ -22,6 +22,9 @@ crate::impl_node_access!(
     [M, T] SharedFut<M, T>,
 );
 
+/// rank of the "ahead" id (the helper channel's history length); sends per history stay far below
+const AHEAD_RANK: usize = 5000;
+
 pub const CREATE: u8 = 0;
 pub const POLL: u8 = 1;
 pub const DROP_FUT: u8 = 2;
@@ -262,11 +265,11 @@ impl<A: StateApi> StateInner<A> {
         } else {
             f.add(latest.min(2) as u64);
             for k in &self.known {
-                f.add((latest - k.1).min(3) as u64);
+                f.add(latest.saturating_sub(k.1).min(3) as u64 + if k.1 > latest { 7 } else { 0 });
             }
             for s in self.slots.v.iter_mut() {
                 if s.live() {
-                    s.fp_arg = Some((latest - (s.arg as usize).min(latest)).min(3) as u64);
+                    s.fp_arg = Some((latest - (s.arg as usize).min(latest)).min(3) as u64 + if s.arg as usize > latest { 7 } else { 0 });
                 }
             }
         }
@@ -305,8 +308,9 @@ impl<A: StateApi> StateInner<A> {
             }
             if !self.known.iter().any(|k| k.1 == latest) {
                 self.known.push((id, latest));
-                if self.known.len() > 3 {
-                    self.known.remove(1);
+                let fixed = if self.bounded { 1 } else { 2 };
+                if self.known.len() > fixed + 2 {
+                    self.known.remove(fixed);
                 }
             }
         }
@@ -319,12 +323,25 @@ impl<A: StateApi> StateInner<A> {
 
     fn new(_cfg: &str, k: usize, bounded: bool) -> Self {
         let base = payload::reserve(if bounded { 8 } else { 4100 });
+        // a StateId far ahead of this channel: minted on a helper channel with a longer history
+        // (a follower that carries an id over from another channel). Nothing here is ever newer.
+        let ahead = {
+            let helper = futures_intrusive::channel::LocalStateBroadcastChannel::<u8>::new();
+            let mut id = StateId::new();
+            for _ in 0..AHEAD_RANK {
+                let _ = helper.send(0);
+            }
+            if let Some((i, _)) = helper.try_receive(id) {
+                id = i;
+            }
+            id
+        };
         let mut c = StateInner {
             api: A::new(),
             closed: false,
             pubs: vec![],
             ids: vec![Some(StateId::new())],
-            known: vec![(StateId::new(), 0)],
+            known: if bounded { vec![(StateId::new(), 0)] } else { vec![(StateId::new(), 0), (ahead, AHEAD_RANK)] },
             somes: 0,
             slots: Slots::new(k, 0),
             base,
@@ -422,7 +439,7 @@ impl<A: StateApi> StateInner<A> {
             }
             POLL => {
                 let rank = self.slots.v[a].arg as usize;
-                let req_id = self.ids.get(rank).copied().flatten().unwrap_or_else(StateId::new);
+                let req_id = if rank == AHEAD_RANK { self.known.get(1).map(|k| k.0).unwrap_or_else(StateId::new) } else { self.ids.get(rank).copied().flatten().unwrap_or_else(StateId::new) };
                 let newer = self.latest() > rank;
                 let closed = self.closed;
                 let last_holder = A::SHARED && self.holders() == 1;
